@@ -1,18 +1,242 @@
 //go:build verif
 
 // Contracts for the verification framework in /verif (comment-only file; it is
-// compiled only with -tags verif and contributes no code). Syntax: DESIGN.md §3.
+// compiled only with -tags verif and contributes no code). Syntax: CONTRACTS.md.
 
 package radius
 
 // ---- coa.go: CoA / Disconnect listener (C09, C15) ----
 
+// RFC 5176 Request Authenticator, written over the uninterpreted hash model
+// (hash_init / hash_absorb / hash_sum, byte sequences bseq):
+//   MD5(Code+Identifier+Length ++ 16 zero octets ++ Attributes ++ secret)
+// pkt is the complete packet (len(pkt) = the RADIUS Length field).
+
+//@ pure func reqAuthState(pkt []byte, secret string) mathint =
+//@     hash_absorb(hash_absorb(hash_absorb(hash_absorb(hash_init(16),
+//@         bseq(elems(pkt), off(pkt), 4)),
+//@         bseq(zeros(), 0, 16)),
+//@         bseq(elems(pkt), off(pkt) + 20, len(pkt) - 20)),
+//@         bseq(strbytes(secret), 0, len(secret)))
+
+//@ pure func reqAuthOK(pkt []byte, auth []byte, secret string) bool =
+//@     forall j int :: 0 <= j < 16 ==> auth[j] == hash_sum(reqAuthState(pkt, secret))[j]
+
 //@ func (s *CoAServer) verifyRequestAuthenticator
 //@   requires len(packet) >= 20 && len(authenticator) == 16
+//@   ensures result <==> reqAuthOK(packet, authenticator, s.secret)
 //@   modifies nothing
+
+//@ loop CoAServer.verifyRequestAuthenticator#1
+//@   invariant forall j int :: 0 <= j < i ==> authenticator[j] == expected[j]
 
 //@ func parseAttributes
 //@   modifies nothing
+
+// ---- responses (C15): what is handed to the socket ----
+// txb(i) = byte i of the datagram most recently passed to WriteToUDP (ghost snapshot).
+
+//@ pure func txb(i mathint) mathint = udp_tx_mem()[udp_tx_off() + i]
+
+//@ pure func respAttrLen(errorCause uint32, message string) mathint =
+//@     ite(errorCause != 0, 6, 0) + ite(message != "", 2 + msgLen(message), 0)
+
+// A Reply-Message longer than the 253 octets an attribute can carry is truncated.
+//@ pure func msgLen(message string) mathint = ite(len(message) <= 253, len(message), 253)
+
+// RFC 2866/5176 Response Authenticator over the datagram sent:
+//   MD5(Code+Identifier+Length ++ Request Authenticator ++ Attributes ++ secret)
+//@ pure func respAuthState(reqAuth []byte, secret string) mathint =
+//@     hash_absorb(hash_absorb(hash_absorb(hash_absorb(hash_init(16),
+//@         bseq(udp_tx_mem(), udp_tx_off(), 4)),
+//@         bseq(elems(reqAuth), off(reqAuth), 16)),
+//@         bseq(udp_tx_mem(), udp_tx_off() + 20, udp_tx_len() - 20)),
+//@         bseq(strbytes(secret), 0, len(secret)))
+
+//@ pure func respAuthOK(reqAuth []byte, secret string) bool =
+//@     forall j int :: 0 <= j < 16 ==> txb(4 + j) == hash_sum(respAuthState(reqAuth, secret))[j]
+
+//@ func (s *CoAServer) sendResponse
+//@   requires len(requestAuth) == 16
+//@   ensures udp_tx_count() == old(udp_tx_count()) + 1
+//@   ensures udp_tx_len() == 20 + respAttrLen(errorCause, message)
+//@   ensures txb(0) == code && txb(1) == identifier
+//@   ensures respAuthOK(requestAuth, s.secret)
+//@   ensures errorCause != 0 ==> txb(20) == 101 && txb(21) == 6
+//@   ensures errorCause != 0 ==> txb(22) == (errorCause / 16777216) % 256 && txb(23) == (errorCause / 65536) % 256 &&
+//@       txb(24) == (errorCause / 256) % 256 && txb(25) == errorCause % 256
+//@   ensures message != "" ==> txb(20 + ite(errorCause != 0, 6, 0)) == 18
+//@   ensures message != "" ==> forall k int :: 0 <= k < msgLen(message) ==> txb(22 + ite(errorCause != 0, 6, 0) + k) == message[k]
+// Length field: a UDP payload cannot exceed 65527 octets, so "every response" ranges over datagrams of at most 65535 octets
+//@   ensures udp_tx_len() <= 65535 ==> txb(2) * 256 + txb(3) == udp_tx_len()
+//@   ensures message != "" ==> txb(21 + ite(errorCause != 0, 6, 0)) == 2 + msgLen(message)
+//@   modifies udp_tx
+
+//@ func (s *CoAServer) sendCoAResponse
+//@   requires len(requestAuth) == 16 && resp != nil
+//@   ensures udp_tx_count() == old(udp_tx_count()) + 1
+//@   ensures txb(0) == ite(resp.Success, 44, 45) && txb(1) == identifier
+//@   ensures respAuthOK(requestAuth, s.secret)
+//@   modifies udp_tx, s.coaACKsSent, s.coaNAKsSent
+
+//@ func (s *CoAServer) sendDisconnectResponse
+//@   requires len(requestAuth) == 16 && resp != nil
+//@   ensures udp_tx_count() == old(udp_tx_count()) + 1
+//@   ensures txb(0) == ite(resp.Success, 41, 42) && txb(1) == identifier
+//@   ensures respAuthOK(requestAuth, s.secret)
+//@   modifies udp_tx, s.dmACKsSent, s.dmNAKsSent
+
+// ---- the datagram most recently received (ghost udp_rx_buf / udp_rx_n set by ReadFromUDP) ----
+// rxb(i) reads the CURRENT contents of the receive buffer, so a predicate over
+// rxb evaluated at a call site speaks about the bytes the callee will see.
+
+//@ pure func rxb(i mathint) mathint = udp_rx_buf()[i]
+//@ pure func rxLength() mathint = rxb(2) * 256 + rxb(3)
+//@ pure func rxComplete() bool = udp_rx_n() >= 20 && 20 <= rxLength() <= udp_rx_n()
+
+//@ pure func rxAuthState(secret string) mathint =
+//@     hash_absorb(hash_absorb(hash_absorb(hash_absorb(hash_init(16),
+//@         bseq(elems(udp_rx_buf()), off(udp_rx_buf()), 4)),
+//@         bseq(zeros(), 0, 16)),
+//@         bseq(elems(udp_rx_buf()), off(udp_rx_buf()) + 20, rxLength() - 20)),
+//@         bseq(strbytes(secret), 0, len(secret)))
+
+// complete RADIUS packet whose Request Authenticator verifies under the secret
+//@ pure func rxAuthentic(secret string) bool =
+//@     rxComplete() && forall j int :: 0 <= j < 16 ==> rxb(4 + j) == hash_sum(rxAuthState(secret))[j]
+
+// identifier and authenticator arguments are those of the received datagram
+//@ pure func fromRx(identifier uint8, authenticator []byte) bool =
+//@     identifier == rxb(1) && arr(authenticator) == arr(udp_rx_buf()) &&
+//@     off(authenticator) == off(udp_rx_buf()) + 4 && len(authenticator) == 16
+
+//@ type CoAServer
+//@   owns mu: coaHandler disconnectHandler sessionLookup
+
+// number of invocations of a session-changing callback
+//@ ghostvar handlerCalls
+
+// Trusted contracts of the injected callbacks: they return a response, do not
+// write to the CoA socket themselves and hold no reference to the listener's
+// receive buffer (parseAttributes copies every attribute value).
+//@ functype CoAHandler(ctx, req)
+//@   modifies *
+//@   ensures result != nil
+//@   ensures handlerCalls == old(handlerCalls) + 1
+//@   ensures udp_tx_count() == old(udp_tx_count())
+//@   ensures udp_rx_buf() == old(udp_rx_buf()) && udp_rx_n() == old(udp_rx_n()) && elems(udp_rx_buf()) == old(elems(udp_rx_buf()))
+
+//@ functype DisconnectHandler(ctx, req)
+//@   modifies *
+//@   ensures result != nil
+//@   ensures handlerCalls == old(handlerCalls) + 1
+//@   ensures udp_tx_count() == old(udp_tx_count())
+//@   ensures udp_rx_buf() == old(udp_rx_buf()) && udp_rx_n() == old(udp_rx_n()) && elems(udp_rx_buf()) == old(elems(udp_rx_buf()))
+
+//@ func (s *CoAServer) parseCoARequest
+//@   ensures result != nil
+//@   modifies nothing
+
+//@ func (s *CoAServer) parseDisconnectRequest
+//@   ensures result != nil
+//@   modifies nothing
+
+//@ func (s *CoAServer) handleCoARequest
+//@   requires rxAuthentic(s.secret) && rxb(0) == 43
+//@   requires fromRx(identifier, authenticator)
+//@   ensures udp_tx_count() == old(udp_tx_count()) + 1
+//@   ensures (txb(0) == 44 || txb(0) == 45) && txb(1) == identifier
+//@   ensures forall j int :: 0 <= j < 16 ==> authenticator[j] == old(authenticator[j])
+//@   ensures respAuthOK(authenticator, s.secret)
+//@   ensures locked(s.coaHandler) != nil ==> handlerCalls == old(handlerCalls) + 1
+//@   ensures txb(0) == 44 ==> handlerCalls == old(handlerCalls) + 1
+//@   modifies *
+
+//@ func (s *CoAServer) handleDisconnectRequest
+//@   requires rxAuthentic(s.secret) && rxb(0) == 40
+//@   requires fromRx(identifier, authenticator)
+//@   ensures udp_tx_count() == old(udp_tx_count()) + 1
+//@   ensures (txb(0) == 41 || txb(0) == 42) && txb(1) == identifier
+//@   ensures forall j int :: 0 <= j < 16 ==> authenticator[j] == old(authenticator[j])
+//@   ensures respAuthOK(authenticator, s.secret)
+//@   ensures locked(s.disconnectHandler) != nil ==> handlerCalls == old(handlerCalls) + 1
+//@   ensures txb(0) == 41 ==> handlerCalls == old(handlerCalls) + 1
+//@   modifies *
+
+//@ func (s *CoAServer) receiveLoop
+//@   modifies *
+
+// One iteration = one datagram. (=>) is the `requires` of the two handlers;
+// (<=) and "at most one response per datagram" are the iteration clauses.
+// err == nil at the end of an iteration means: the read succeeded and, when
+// attribute parsing was reached, parseAttributes accepted the attributes.
+//@ loop CoAServer.receiveLoop#1
+//@   iteration err == nil && rxAuthentic(s.secret) && (rxb(0) == 43 || rxb(0) == 40) ==> udp_tx_count() == iter(udp_tx_count()) + 1
+//@   iteration udp_tx_count() == iter(udp_tx_count()) || udp_tx_count() == iter(udp_tx_count()) + 1
+
+// ---- client.go: accounting records (C08, clause "own identifiers / 64-bit counters") ----
+// The layeh.com/radius attribute API is external; the engine's assumed library
+// model records per packet which attribute number holds which value
+// (rad_has / rad_int / rad_str / rad_bytes) and radius.Exchange snapshots the
+// attributes of the packet it transmits (rad_sent_*). Attribute numbers:
+// 1 User-Name, 5 NAS-Port, 8 Framed-IP-Address, 25 Class, 32 NAS-Identifier,
+// 40 Acct-Status-Type, 42/43 Acct-Input/Output-Octets, 44 Acct-Session-Id,
+// 46 Acct-Session-Time, 47/48 Acct-Input/Output-Packets, 49 Acct-Terminate-Cause,
+// 52/53 Acct-Input/Output-Gigawords, 80 Message-Authenticator.
+
+//@ type Client
+//@   owns mu: currentIdx
+
+//@ func (c *Client) waitRateLimit
+//@   trusted golang.org/x/time/rate.Limiter.Wait is external (takes a context); it has no access to RADIUS packets or requests
+//@   modifies nothing
+
+//@ func (c *Client) getServer
+//@   modifies c.currentIdx
+
+//@ func formatMAC
+//@   modifies nothing
+
+//@ func addMessageAuthenticator
+//@   requires packet != nil
+//@   ensures rad_int(packet) == old(rad_int(packet)) && rad_str(packet) == old(rad_str(packet))
+//@   ensures forall t int :: t != 80 ==> rad_has(packet)[t] == old(rad_has(packet))[t] && rad_bytes(packet)[t] == old(rad_bytes(packet))[t]
+//@   modifies rad_attrs(packet)
+
+// an absent Gigawords attribute means 0 (RFC 2869 §5.1/5.2)
+//@ pure func sentOr0(t mathint) mathint = ite(rad_sent_has()[t], rad_sent_int()[t], 0)
+//@ pure func sentInt(t mathint, v mathint) bool = rad_sent_has()[t] && rad_sent_int()[t] == v
+//@ pure func sentStr(t mathint, v string) bool = rad_sent_has()[t] && rad_sent_str()[t] == v
+// an Accounting-Request was handed to radius.Exchange during this call
+//@ pure func acctSent() bool = rad_sent_count() == old(rad_sent_count()) + 1
+// Stop and Interim-Update records carry counters
+//@ pure func hasCounters(st AcctStatusType) bool = st == 2 || st == 3
+
+//@ func (c *Client) SendAccounting
+//@   requires req != nil
+//@   ensures err == nil ==> acctSent()
+//@   ensures acctSent() || rad_sent_count() == old(rad_sent_count())
+//@   ensures acctSent() ==> sentInt(40, req.StatusType) && sentInt(5, req.NASPort)
+//@   ensures len(req.SessionID) <= 253 && acctSent() ==> sentStr(44, req.SessionID)
+//@   ensures len(req.Username) <= 253 && acctSent() ==> sentStr(1, req.Username)
+//@   ensures len(c.nasID) <= 253 && acctSent() ==> sentStr(32, c.nasID)
+//@   ensures req.Class != nil && len(req.Class) <= 253 && acctSent() ==>
+//@       rad_sent_has()[25] && rad_sent_bytes()[25] == bseq(elems(req.Class), off(req.Class), len(req.Class))
+//@   ensures len(req.FramedIP) == 4 && acctSent() ==>
+//@       rad_sent_has()[8] && rad_sent_bytes()[8] == bseq(elems(req.FramedIP), off(req.FramedIP), 4)
+//@   ensures hasCounters(req.StatusType) && acctSent() ==> sentInt(42, req.InputOctets % 4294967296) && sentOr0(52) == req.InputOctets / 4294967296
+//@   ensures acctSent() && hasCounters(req.StatusType) ==> sentOr0(52) * 4294967296 + rad_sent_int()[42] == req.InputOctets
+//@   ensures hasCounters(req.StatusType) && acctSent() ==> sentInt(43, req.OutputOctets % 4294967296) && sentOr0(53) == req.OutputOctets / 4294967296
+//@   ensures acctSent() && hasCounters(req.StatusType) ==> sentOr0(53) * 4294967296 + rad_sent_int()[43] == req.OutputOctets
+//@   ensures hasCounters(req.StatusType) && acctSent() ==> sentInt(46, req.SessionTime) &&
+//@       sentInt(47, req.InputPackets % 4294967296) && sentInt(48, req.OutputPackets % 4294967296)
+//@   ensures req.StatusType == 2 && req.TerminateCause != 0 && acctSent() ==> sentInt(49, req.TerminateCause)
+//@   ensures !hasCounters(req.StatusType) && acctSent() ==>
+//@       !rad_sent_has()[42] && !rad_sent_has()[43] && !rad_sent_has()[52] && !rad_sent_has()[53]
+// the clause as stated, without a length bound (expected to fail: the errors the
+// setters return for values longer than 253 octets are discarded)
+//@   ensures acctSent() ==> sentStr(44, req.SessionID) && sentStr(1, req.Username)
+//@   modifies rad_sent, c.currentIdx
 
 // ---- client.go: RADIUS authentication as seen by its callers (C04) ----
 // The exchange with the server is external: the verdict is an oracle.
